@@ -6,12 +6,18 @@
  *        delim=1: entries with ml=0,off=0 are block delimiters (their ll = last literals of the block).
  *   GEN <wlog> <minMatch> <delim> <repSearch> <kind> <srcSize> <seed> <level> <genLevel>
  *        sequences extracted by the library itself (ZSTD_generateSequences, optionally ZSTD_mergeBlockDelimiters)
+ *   DSEQ <level> <delim> <validate> <dictContentSize> <srcSize> <seed> <repSearch> <cdict> <litBlocks>
+ *        a zstd-format dictionary (ZDICT_finalizeDictionary: entropy tables + content) and a multi-block source built in this driver
+ *        from a random valid parse whose matches reach recent data, the start of the source and the dictionary content - in later
+ *        blocks with offsets larger than dictionary content + 128 KiB, i.e. offset codes the dictionary's table does not contain
+ *        litBlocks: that many leading 128 KiB blocks hold literals only (they are emitted raw, so the dictionary's tables are still unused after them)
  *   PROD <wlog> <level> <kind> <srcSize> <seed> <maxSeqPerBlock> <failBlock> <fallback> <repSearch>
  *        ZSTD_compress2 with a registered external sequence producer (a small greedy parser inside this driver that
  *        returns at most maxSeqPerBlock sequences per block and fails on block number failBlock, -1 = never) */
 #define ZSTD_STATIC_LINKING_ONLY
 #include "zstd.h"
 #include "zstd_errors.h"
+#include "zdict.h"
 #include "refdec.h"
 #include "vgen.h"
 #include <stdio.h>
@@ -20,15 +26,17 @@
 static unsigned char *src, *comp, *out, *dict; static FILE* T;
 static unsigned rx; static unsigned rnd(void) { rx = rx * 1103515245u + 12345u; return (rx >> 16) & 0x7fff; }
 
+static const unsigned char* g_fdict; static size_t g_fdictSize;      /* formatted dictionary of a DSEQ case */
 static void verify(const char* tag, size_t r, size_t srcSize, size_t dictSize, int wlog) {
     if (ZSTD_isError(r)) return;
     { ZSTD_DCtx* d = ZSTD_createDCtx(); size_t lr, rr; ZSTD_DCtx_setParameter(d, ZSTD_d_windowLogMax, 31);
+      if (g_fdict) ZSTD_DCtx_loadDictionary(d, g_fdict, g_fdictSize); else
       if (dictSize) ZSTD_DCtx_refPrefix(d, dict, dictSize);
       lr = ZSTD_decompressDCtx(d, out, srcSize + 64, comp, r);
       fprintf(T, "{\"e\":\"libdec\",\"ok\":%s,\"match\":%s,\"err\":\"%s\"}\n", ZSTD_isError(lr) ? "false" : "true", (!ZSTD_isError(lr) && lr == srcSize && !memcmp(out, src, srcSize)) ? "true" : "false", ZSTD_isError(lr) ? ZSTD_getErrorName(lr) : "");
       ZSTD_freeDCtx(d);
       REF_set_trace(T, 0); memset(out, 0xEE, srcSize + 64);
-      rr = REF_decode_all(out, srcSize + 64, comp, r, dictSize ? dict : NULL, dictSize);
+      rr = g_fdict ? REF_decode_all(out, srcSize + 64, comp, r, g_fdict, g_fdictSize) : REF_decode_all(out, srcSize + 64, comp, r, dictSize ? dict : NULL, dictSize);
       REF_set_trace(NULL, 0);
       fprintf(T, "{\"e\":\"refdec\",\"ok\":%s,\"match\":%s,\"why\":\"%s\",\"magicless\":0}\n", rr == (size_t)-1 ? "false" : "true", (rr == srcSize && !memcmp(out, src, srcSize)) ? "true" : "false", rr == (size_t)-1 ? REF_last_error() : ""); }
     (void)tag; (void)wlog;
@@ -84,6 +92,54 @@ int main(int argc, char** argv) {
             fprintf(T, "]}\n");
             verify("seq", r, (size_t)srcSize, (size_t)dictSize, wlog);
             ZSTD_freeCCtx(c);
+        } else if (!strncmp(line, "DSEQ ", 5)) {
+            int level, delim, validate, rep, useCDict = 0, litBlocks = 0; long dcs, srcSize; unsigned seed; size_t ns = 0, pos = 0, bend, r, fds, cap; ZSTD_CCtx* c; ZSTD_CDict* cd = NULL;
+            ZSTD_Sequence* seqs; unsigned char* fd; unsigned lastOff = 1;
+            if (sscanf(line + 5, "%d %d %d %ld %ld %u %d %d %d", &level, &delim, &validate, &dcs, &srcSize, &seed, &rep, &useCDict, &litBlocks) < 7) continue;
+            if (dcs < 64 || dcs > (1 << 19) || srcSize < 1000 || (size_t)srcSize > MAXN) continue;
+            rx = seed * 2654435761u + 7;
+            { long i; for (i = 0; i < dcs; i++) dict[i] = (unsigned char)(rnd() >> 3); }
+            seqs = malloc(sizeof(ZSTD_Sequence) * ((size_t)srcSize / 4 + 16));
+            bend = 131072 < (size_t)srcSize ? 131072 : (size_t)srcSize;
+            { size_t carry = 0;
+            while (litBlocks > 0 && pos + 131072 + 1000 < (size_t)srcSize) { size_t j; for (j = 0; j < 131072; j++) src[pos++] = (unsigned char)(rnd() >> 3);
+                if (delim) { seqs[ns].litLength = 131072; seqs[ns].matchLength = 0; seqs[ns].offset = 0; seqs[ns].rep = 0; ns++; } else carry += 131072;
+                bend = pos + 131072 < (size_t)srcSize ? pos + 131072 : (size_t)srcSize; litBlocks--; }
+            while (pos + 80 < (size_t)srcSize) {
+                size_t ll = (rnd() % 9 == 0) ? 0 : rnd() % 400, ml = 4 + rnd() % 60, maxOff, of, j; unsigned cls = rnd() % 8;
+                if (delim && pos + ll + ml > bend) {      /* close the block: its last literals, then the next block */
+                    size_t rest = bend - pos; for (j = 0; j < rest; j++) src[pos++] = (unsigned char)(rnd() >> 3);
+                    seqs[ns].litLength = (unsigned)rest; seqs[ns].matchLength = 0; seqs[ns].offset = 0; seqs[ns].rep = 0; ns++;
+                    bend = bend + 131072 < (size_t)srcSize ? bend + 131072 : (size_t)srcSize; continue; }
+                if (pos + ll + ml + 80 > (size_t)srcSize) break;
+                for (j = 0; j < ll; j++) src[pos++] = (unsigned char)(rnd() >> 3);
+                maxOff = pos + (size_t)dcs;
+                if (cls <= 2) of = 1 + rnd() % (maxOff < 4096 ? maxOff : 4096);
+                else if (cls <= 4) of = 1 + ((size_t)rnd() * 5) % (maxOff < 131072 ? maxOff : 131072);
+                else if (cls == 5) of = lastOff <= maxOff ? lastOff : 1;
+                else of = maxOff - rnd() % ((size_t)dcs < 32768 ? (size_t)dcs : 32768);      /* into the dictionary content: grows with the position */
+                for (j = 0; j < ml; j++) { src[pos] = of <= pos ? src[pos - of] : dict[(size_t)dcs - (of - pos)]; pos++; }
+                seqs[ns].litLength = (unsigned)(ll + carry); carry = 0; seqs[ns].matchLength = (unsigned)ml; seqs[ns].offset = (unsigned)of; seqs[ns].rep = 0; ns++; lastOff = (unsigned)of;
+            } }
+            { size_t rest = (size_t)srcSize - pos, j;
+              if (delim) { while (rest) { size_t take = bend - pos < rest ? bend - pos : rest; for (j = 0; j < take; j++) src[pos++] = (unsigned char)(rnd() >> 3);
+                                           seqs[ns].litLength = (unsigned)take; seqs[ns].matchLength = 0; seqs[ns].offset = 0; seqs[ns].rep = 0; ns++; rest -= take; bend += 131072; } }
+              else for (j = 0; j < rest; j++) src[pos++] = (unsigned char)(rnd() >> 3); }
+            cap = (size_t)dcs + 65536; fd = malloc(cap);
+            { size_t sizes[16]; int k; ZDICT_params_t zp; memset(&zp, 0, sizeof(zp)); zp.dictID = 0x1234 + seed % 100; for (k = 0; k < 16; k++) sizes[k] = (size_t)srcSize / 16;
+              fds = ZDICT_finalizeDictionary(fd, cap, dict, (size_t)dcs, src, sizes, 16, zp); }
+            if (ZDICT_isError(fds) || fds < (size_t)dcs || memcmp(fd + fds - (size_t)dcs, dict, (size_t)dcs)) {
+                fprintf(T, "{\"e\":\"dseqskip\",\"why\":\"%s\"}\n", ZDICT_isError(fds) ? ZDICT_getErrorName(fds) : "dictionary content was trimmed"); free(fd); free(seqs); continue; }
+            c = ZSTD_createCCtx();
+            ZSTD_CCtx_setParameter(c, ZSTD_c_compressionLevel, level); ZSTD_CCtx_setParameter(c, ZSTD_c_windowLog, 22);
+            ZSTD_CCtx_setParameter(c, ZSTD_c_blockDelimiters, delim); ZSTD_CCtx_setParameter(c, ZSTD_c_validateSequences, validate); ZSTD_CCtx_setParameter(c, ZSTD_c_searchForExternalRepcodes, rep);
+            ZSTD_CCtx_setParameter(c, ZSTD_c_checksumFlag, 1);
+            if (useCDict) { cd = ZSTD_createCDict(fd, fds, level); ZSTD_CCtx_refCDict(c, cd); } else ZSTD_CCtx_loadDictionary(c, fd, fds);
+            r = ZSTD_compressSequences(c, comp, ZSTD_compressBound(srcSize) + 1024, seqs, ns, src, (size_t)srcSize);
+            fprintf(T, "{\"e\":\"gencase\",\"no\":%d,\"kind\":\"fmtdict\",\"wlog\":22,\"minMatch\":0,\"delim\":%d,\"rep\":%d,\"srcSize\":%ld,\"nseq\":%lld,\"ok\":%s,\"err\":\"%s\",\"dictContent\":%ld,\"level\":%d,\"validate\":%d,\"cdict\":%d}\n", no++, delim, rep, srcSize,
+                    (long long)ns, ZSTD_isError(r) ? "false" : "true", ZSTD_isError(r) ? ZSTD_getErrorName(r) : "", dcs, level, validate, useCDict);
+            g_fdict = fd; g_fdictSize = fds; verify("dseq", r, (size_t)srcSize, 0, 22); g_fdict = NULL;
+            ZSTD_freeCCtx(c); ZSTD_freeCDict(cd); free(fd); free(seqs);
         } else if (!strncmp(line, "GEN ", 4)) {
             int wlog, minMatch, delim, rep, level, genLevel; char kind[32]; long srcSize; unsigned seed; size_t ns, r; ZSTD_CCtx* c; ZSTD_Sequence* seqs;
             if (sscanf(line + 4, "%d %d %d %d %31s %ld %u %d %d", &wlog, &minMatch, &delim, &rep, kind, &srcSize, &seed, &level, &genLevel) < 9) continue;
